@@ -1254,8 +1254,10 @@ class Executor:
         #         f"Trying to return array {array} but not all values are defined yet"
         #     )
 
+        # Return a copy: later writes to the array must not reach the Host
+        # before the next `ret_arr`.
         self._update_shared_memory(
-            app_id=app_id, entry=address, value=array  # type: ignore
+            app_id=app_id, entry=address, value=list(array)  # type: ignore
         )
 
     def _update_shared_memory(
